@@ -17,36 +17,72 @@ CLAIMED = {
             "Proof: `C01_wire` — for every payload < 2^63 bytes, FIN in {0,1}, opcode in the generated table and 4-byte key, ABNF.format's "
             "output is read back by the RFC decoder as exactly that frame with MASK set, that key, the minimal length form, the payload, nothing "
             "left, and length = header+4+payload; masking = positional XOR and an involution. Key drawn once per frame, return value, short "
-            "writes, str payloads, trace on/off and API wrappers are tied by correspondence/oracle over every length 0..300, 65400..65700 "
-            "(thorough: 0..70000).", "Not modelled: latin-1 path for str payload with non-text opcode; non-ASCII str keys.", "DESIGN.md §6 C01"),
-    "C02": ("Lean 4 theorem spec_decode_encode (RFC decoder inverts RFC encoder for every header/length form/mask, exact rest)" + T_CORR,
-            "Proof: the Spec decoder is proved to invert the encoder for all frames (so 'what an independent decoder extracts' is pinned for "
-            "every frame); the staged parser model (frame_buffer) is tied to the real parser by correspondence on all 256 first bytes x "
-            "length classes x masks and random multi-frame streams, and the real outputs are judged by that decoder. The refinement "
-            "model-parser = Spec decoder is work in progress (WS.Lemmas.RecvStrict).", "", "DESIGN.md §6 C02"),
-    "C03": ("model/implementation correspondence on identical schedules + metamorphic Spec oracle on the real code; Lean lemmas on recv_strict (in progress)",
-            "Currently: correspondence of the resumable parser model with the real code on every partition of short streams, a timeout at "
-            "every byte position (x1, x2), random schedules, and frames glued to the 101 response; metamorphic oracle on the real outputs. "
-            "Lean: resumption lemmas for recv_strict/recv_frame are being proved; until then this check is correspondence-level for the "
-            "segmentation clause.", "Not modelled: EAGAIN+select path, SSL 'timed out' message matching.", "DESIGN.md §6 C03"),
-    "C04": ("model/implementation correspondence + Spec oracle; Lean lemma on continuous_frame.add (reassembly theorem in progress)",
-            "Correspondence of the recv_data_frame loop model with the real code over every cut of short payloads into <= 4 fragments "
-            "(empty ones included), text/binary, control frames in every gap, multi-message lists, fire_cont_frame and skip_utf8 on/off; "
-            "oracle = concatenation in order with the first fragment's opcode. Lean reassembly theorem in progress.", "", "DESIGN.md §6 C04"),
+            "writes (C12_one_frame_per_send), str payloads, trace on/off and API wrappers are tied by correspondence/oracle over every length "
+            "0..300, 65400..65700 (thorough: 0..70000).", "Not modelled: latin-1 path for str payload with non-text opcode; non-ASCII str keys.", "DESIGN.md §6 C01"),
+    "C02": ("Lean 4 theorems C02_decode / C02_stream (staged parser = RFC decoder over any chunking, exact consumption, any number of frames) + spec_decode_encode" + T_CORR,
+            "Proof: `C02_decode` — from a cleared parser on a live connection, for every chunking of the pending bytes, if they start with a "
+            "complete frame (any header byte, 7/16/64-bit length form minimal or not, masked or not) recv_frame returns exactly the RFC "
+            "decoder's FIN/RSV/opcode/unmasked payload (or validate's protocol error) and leaves exactly the following bytes pending; "
+            "`C02_stream` lifts it to any sequence of frames by induction; `spec_decode_encode` pins the decoder against the encoder for all "
+            "frames. The model is tied to the real parser by correspondence on all 256 first bytes x length classes x masks and random "
+            "multi-frame streams; the real outputs are judged by the same decoder.", "", "DESIGN.md §6 C02"),
+    "C03": ("Lean 4 theorems C03_recv_strict / C03_segmentation (outcomes depend only on the pending bytes, not on chunk boundaries)" + T_CORR + " (metamorphic)",
+            "Proof: `C03_recv_strict` (recv_strict returns exactly the next n pending bytes over any chunking) and `C03_segmentation` (two "
+            "connections with equal pending bytes, however split between buffer and chunks, report identical outcomes for every complete frame "
+            "and are left with identical pending bytes). The timeout clause (a TIMEOUT at any byte position is resumable, none lost or "
+            "duplicated) and the handshake/frames boundary are held by correspondence on identical schedules (all partitions of short streams, "
+            "a timeout x1/x2 at every byte position, random schedules) and by the metamorphic oracle on the real code; the Lean resumption "
+            "theorem for timeouts is not yet proved (stated in DESIGN.md).", "Not modelled: EAGAIN+select path, SSL 'timed out' message matching.", "DESIGN.md §6 C03"),
+    "C04": ("Lean 4 theorem C04_reassembly (loop over any fragmented message with interleaved control frames, concrete parser+transport model)" + T_CORR,
+            "Proof: `C04_reassembly` — for every message (any number of fragments incl. empty ones, text/binary, any pings<=125/pongs before "
+            "each fragment) over any chunking, one recv_data_frame() call returns it once with the first fragment's opcode and the in-order "
+            "concatenation (or PAYLOAD for non-UTF-8 text), consumes exactly its frames and resets the reassembly state (so consecutive "
+            "messages come in order). Per-fragment delivery (fire_cont_frame) and multi-message lists are held by correspondence over every "
+            "cut of short payloads into <= 4 fragments, control frames in every gap, and random lists.", "", "DESIGN.md §6 C04"),
     "C05": ("Lean 4 theorem C05_close_codes (code table = RFC ranges for every number)" + T_CORR,
-            "Proof: `C05_close_codes` for every Nat (all 65536 wire values) over the generated tuple and range literals. Frame-level rejection "
-            "(all 256 first bytes x length classes, close bodies of every UTF-8 class, every sequencing history to length 4/5 over "
-            "{T0,T1,B0,B1,C0,C1,ping,pong}) is tied by correspondence and judged by Spec.frameLegal on the real outputs.", "", "DESIGN.md §6 C05"),
+            "Proof: `C05_close_codes` for every Nat (all 65536 wire values) over the generated tuple and range literals; C02_decode shows the "
+            "frame handed to validate is the decoder's. Frame-level rejection (all 256 first bytes x length classes, close bodies of every "
+            "UTF-8 class, every sequencing history to length 4/5 over {T0,T1,B0,B1,C0,C1,ping,pong}) is tied by correspondence and judged by "
+            "Spec.frameLegal on the real outputs.", "", "DESIGN.md §6 C05"),
     "C06": ("Lean 4 theorem (validator = Unicode Table 3-7 for all byte strings, via generated DFA table, decide +kernel)" + T_CORR,
             "Proof: `C06_validate : forall bs, validateUtf8 bs = wellFormed bs` over the DFA table regenerated from "
-            "_utils.py on every run; the final-state test of _validate_utf8 is a generated fact. Message-level clauses "
-            "(fragmentation independence, validation off, close reasons) are tied by the correspondence/oracle runs over "
-            "every string of length <= 2, boundary products, all prefixes of well-formed sequences and fragmentations.",
+            "_utils.py on every run; the final-state test of _validate_utf8 is a generated fact; C04_reassembly shows validity is judged on "
+            "the reassembled payload. Message-level clauses (fragmentation independence, validation off, close reasons) are also tied by the "
+            "correspondence/oracle runs over every string of length <= 2, boundary products, all prefixes of well-formed sequences.",
             "Not modelled: wsaccel fast path (absent).", "DESIGN.md §6 C06"),
-    "C07": ("Lean 4 theorem C07_pong_bytes (pong frame decodes to FIN=1/op 10/masked/same payload for all payloads <= 125, all keys)" + T_CORR,
-            "Proof of the bytes of every pong; the ordering discipline (pong immediately after the ping, before any further read, nothing "
-            "written for pongs/data) is checked on the real read/write timeline of the simulated socket for every ping length 0..125, bursts, "
-            "pings inside fragmented messages, byte-wise delivery; trace theorem in progress.", "", "DESIGN.md §6 C07"),
+    "C07": ("Lean 4 theorems C07_trace (writes = exactly the pongs of the pings, in order) and C07_pong_bytes" + T_CORR,
+            "Proof: `C07_trace` — along any message with pings/pongs at any position, over any chunking, the bytes the receive call writes are "
+            "exactly one pong per ping, in ping order, nothing for pongs/data; `C07_pong_bytes` — each pong decodes to FIN=1/op 10/masked/same "
+            "payload. 'Before it reads any further' is additionally checked on the real read/write timeline of the simulated socket for every "
+            "ping length 0..125, bursts, pings inside fragmented messages, byte-wise delivery.", "", "DESIGN.md §6 C07"),
+    "C08": ("Lean 4 theorems C08_status_range_*, C08_inert_* (zero transport calls once released), C08_close_releases" + T_CORR,
+            "Proof: out-of-range statuses refused with state untouched (all states); once `sock is None` recv_frame / recv_data_frame / send make "
+            "zero transport calls for every state and fuel (WS.Lemmas.Released) and send raises CLOSED; close() on a connected object always ends "
+            "in shutdown(). 'At most one own close frame' and the time bound of close() are held by correspondence/oracle over all call "
+            "histories to length 3 (4) x 12 server scripts in virtual time + random histories to length 9.", "", "DESIGN.md §6 C08"),
+    "C09": ("Lean 4 theorems C09_only_if / C09_failure_clean / C09_redirect_bound / C09_key_binding" + T_CORR,
+            "Proof over every world (scripted dials, responses byte by byte with timeout/reset/EOF anywhere): connected only after a 101 with "
+            "upgrade tokens, accept = acceptOf(key of that very request), offered subprotocol; at most limit+1 dials; any raise leaves the "
+            "object unconnected with every transport closed.", "acceptOf (SHA-1+base64, written in Lean) is tested against hashlib on every run, not proved equal.", "DESIGN.md §6 C09"),
+    "C10": ("Lean 4 theorems C10_request / C10_key / C10_one_write" + T_CORR,
+            "Proof: the request text parses back (independent grammar) to exactly the expected request for all URL parts/options/jar contents "
+            "without CR/LF; key = base64 of the 16 drawn bytes (round trip proved for all lengths); exactly one write before the first read. "
+            "Oracle includes the independent `websockets` server.", "", "DESIGN.md §6 C10"),
+    "C11": ("Lean 4 theorems C11_policy / C11_default / C11_only_own_check_* / C11_wrap_iff_wss / C11_before_data" + T_CORR,
+            "Proof of the decision logic (policy = documented Spec for every sslopt/env/host) and of the ordering dial -> [CONNECT] -> wrap -> "
+            "request over whole connect traces. That CPython/OpenSSL enforce verify_mode/check_hostname is trusted; thorough tier exercises "
+            "loopback TLS servers with minted certificates.", "OpenSSL verification itself is not modelled.", "DESIGN.md §6 C11"),
+    "C12": ("Lean 4 theorems C12_short_writes, C12_one_frame_per_send, C12_senders (all interleavings of any number of threads), generated lock-scope facts" + T_CORR + " (co-simulation under a baton scheduler)",
+            "Proof: every short-write pattern puts exactly the frame on the wire; for any number of threads, frames, patterns and EVERY schedule "
+            "the wire is whole frames in completion order (+ a prefix of the lock holder's frame), by an invariant preserved by every step; the "
+            "lock scopes are generated facts. Real threads are co-simulated with the model on identical schedules (all schedules of length 9/11 "
+            "for 2 threads, 6/8 for 3). Receivers (each message intact to exactly one thread) are held by the oracle on real threads only.",
+            "Lock acquire/release atomic; bytecode-level races inside a line not modelled.", "DESIGN.md §6 C12"),
+    "C17": ("Lean 4 theorems C17_frame_no_internal, C17_request_sizes (unconditional), C17_head_no_internal" + T_CORR,
+            "Proof: on arbitrary bytes in any chunking followed by eof/silence recv_frame returns a frame or PROTO/CLOSED/TIMEOUT, never an "
+            "internal error, never out of fuel (progress); every size passed to the transport is <= 16384 for every state/script/declared "
+            "length; head phase: read_headers/_get_resp_headers/handshake end only in documented exceptions and read 1 byte at a time (error "
+            "body <= 16384). recv() with fire_cont_frame (a caller opt-in) is outside the quantifier — see DESIGN.md.", "", "DESIGN.md §6 C17"),
     "C18": ("Lean 4 theorems C18_parse/C18_reject/C18_total/C18_dial/C18_options/C18_dispatcher" + T_CORR,
             "Proof: parse_url = RFC 3986 split for every string of the modelled grammar, rejection of everything else with no network "
             "activity, address loop by induction on address lists of any length, socket options/timeout on every socket tried.",
@@ -61,7 +97,7 @@ CLAIMED = {
             "http.cookies.SimpleCookie's parser is not modelled (canonical Set-Cookie strings only).", "DESIGN.md §6 C20"),
 }
 
-PENDING_REASON = "not yet built in this session (work in progress, see DESIGN.md §8); no check is claimed until its theorem and correspondence exist"
+PENDING_REASON = "WebSocketApp layer: model, theorems and virtual-time harness are being built on a work branch (DESIGN.md §6 C13-C16); not merged yet, no check is claimed until they are"
 
 
 def main():
